@@ -19,7 +19,7 @@ Round 7: 10 more (C06 C07 C08 C09 C11 C12 C13 C18 C19 C20), each told to find a 
 Round 8: 10 more (C01 C02 C03 C04 C05 C10 C14 C15 C16 C17) with a list of the dimensions along which a change can hide.
 Round 9: 9 more (C06 C07 C08 C09 C11 C12 C13 C19 C20), same.
 Round 10: 11 more (C01 C02 C03 C04 C05 C10 C14 C15 C16 C17 C18). Round 11: 9 more (C06 C07 C08 C09 C11 C12 C13 C19 C20).
-Round 12: 11 more (C01 C02 C03 C04 C05 C10 C14 C15 C16 C17 C18).
+Round 12: 11 more (C01 C02 C03 C04 C05 C10 C14 C15 C16 C17 C18). Round 13: 9 more (C06 C07 C08 C09 C11 C12 C13 C19 C20).
 Every returned change was re-confirmed in a new scratch worktree by
 `tools/confirm_seed.sh` / `confirm_seed_unit.sh` (patch applies, 33+9 tests pass with it, the
 demonstration fails with it and passes without it; for the two memory-ordering changes the
@@ -34,12 +34,15 @@ the same change independently (C02/C03, C06/C07, C08/C11).
 for n,p,needs,c in rows:
     new+=f"| {n} | {p} | {needs.replace('|','/')} | {c} |\\n".replace('\\n','\n')
 new+='''
-All 133 are caught now on every run - 130 by the quick tier of the property they were made for,
-three by the check of the property they really break (R9-C08, an ordering-only change filed under
-C08, by C09; R10-C10 and R12-C02, the same pattern-layer change filed under C10 and C02, by C15).
-**Forty-three were missed when first confirmed** (eleven of rounds 1-2, seven of round 3, two of
+All 142 are caught now on every run - 138 by the quick tier of the property they were made for,
+four by the check of a sibling property (R9-C08, an ordering-only change filed under C08, by C09;
+R10-C10 and R12-C02, the same pattern-layer change filed under C10 and C02, by C15; R13-C06, the
+join-and-cancel change of R4-C18 filed under C06, by C18 - through the front end it needs
+thousands of matches and a cancel inside the parallel sort, which the scheduler scenarios do not
+reach).
+**Forty-five were missed when first confirmed** (eleven of rounds 1-2, seven of round 3, two of
 round 4, four of round 5, one of round 6, five of round 7, one of round 8, six of round 9, one of
-round 10, four of round 11, one of round 12) and led to strengthening:
+round 10, four of round 11, one of round 12, two of round 13) and led to strengthening:
 
 * *C01-no-fold-after-normalize* (only U+0130 is affected) and *R2-C14-std-is-uppercase* (final
   sigma, long s, micro sign, title-case digraphs): hand-picked alphabets cannot anticipate which
@@ -160,6 +163,9 @@ round 10, four of round 11, one of round 12) and led to strengthening:
   killed by a signal is a finding, not a machinery failure), *R11-C07-status-enum-order-swapped*
   (family **MC2**), *R11-C20-handover-else-if* (pattern edits in the C20 alphabet).
 * Round 12: *R12-C15-pattern-score-u16-sum* - patterns of up to 100 copies of a long atom.
+* Round 13: *R13-C11-snapshot-releases-old-vector-at-spawn* (an item the snapshot lists as a
+  match must not be destroyed), *R13-C13-extend-notify-guard-dropped-early* (a C13 script whose
+  injector thread uses the batch call).
 * Confirming *C13-no-retry-for-zero-timeout* exposed a harness bug (a parked thread of a
   deadlocked execution kept a global lock; the next execution stalled and the run ended as a
   machinery failure instead of a verdict) - fixed by a pool of reference matchers.
